@@ -58,6 +58,18 @@ class Node:
     def macros(self):
         return self.j.get("m", [])
 
+    def is_lambda_parm(self):
+        """a reference to a parameter of a lambda (or other nested callable) inside this function: not one of the function's own
+        parameters, so nothing a caller of the function passes"""
+        d = self.j.get("d")
+        if not d or d.get("k") != "parm" or self.fn is None:
+            return False
+        own = getattr(self.fn, "_own_parm_ids", None)
+        if own is None:
+            own = {p.get("id") for p in self.fn.params}
+            self.fn._own_parm_ids = own
+        return d.get("id") not in own
+
     def role(self, name):
         rid = self.j.get("r", {}).get(name)
         if rid is None:
